@@ -94,10 +94,14 @@ impl Database {
                                         change.key,
                                         pendding_conflict.len()
                                     );
-                                    (
-                                        pendding_conflict.last().unwrap().to_string(),
-                                        version.saturating_add(pendding_conflict.len() as i32),
-                                    )
+                                    match pendding_conflict.last() {
+                                        Some(last_conflict) => (
+                                            last_conflict.to_string(),
+                                            version.saturating_add(pendding_conflict.len() as i32),
+                                        ),
+                                        // Marked as in conflict by a client, no conflict registered yet
+                                        None => (old_value.to_string(), old_version),
+                                    }
                                 } else {
                                     (old_value.to_string(), old_version)
                                 };
